@@ -24,6 +24,7 @@ SCENARIOS = {
     'player_raises': ['equal', 'raises', 'equal'],
     'idle_kill_after_1': ['equal', 'equal', 'equal', 'equal'],
     'helper_process': ['equal', 'helper', 'equal'],
+    'thread_left_behind': ['equal', 'thread', 'equal', 'equal', 'equal'],
 }
 
 
@@ -50,6 +51,9 @@ def real_run(name, behaviours, recycle=3, timeout=1):
                     os._exit(3)
                 elif b == 'raises':
                     raise RuntimeError('x')
+                elif b == 'thread':
+                    import threading
+                    threading.Thread(target=lambda: time.sleep(60)).start()      # non-daemon: the worker process cannot exit
                 elif b == 'helper':
                     import multiprocessing
                     q = multiprocessing.Queue()
@@ -102,7 +106,7 @@ def sim_run(name, behaviours, recycle=3, timeout=1):
         run = Run('X')
         sc = E.Scenario(tape, force_dedicated=True)
         sc.n = len(behaviours)
-        m = {'equal': 'equal', 'different': 'different', 'hang': 'worker_hang', 'exit': 'worker_abort', 'raises': 'operation_raises', 'helper': 'spawns_helper'}
+        m = {'equal': 'equal', 'different': 'different', 'hang': 'worker_hang', 'exit': 'worker_abort', 'raises': 'operation_raises', 'helper': 'spawns_helper', 'thread': 'leaves_thread'}
         sc.behaviours = [m[b] for b in behaviours]
         sc.recycle, sc.timeout, sc.keep, sc.jitter, sc.queue_delay, sc.slow_start, sc.preempt = recycle, float(timeout), False, 4, 0.0, 0.0, 0.0
         sc.duplicates, sc.consume, sc.data_extractor = False, 'full', False
